@@ -14,6 +14,11 @@ RULE = ("correspondence: extracted Coq model of parse_directive_text vs the impl
         "directive classes; the option tokenizer / converters / yaml / dedent results are captured from the implementation run "
         "and handed to the model as tables keyed by their argument (a different option block = table miss = disagreement); "
         "search: the property clauses re-computed independently in Python from the content lines (split at CRLF/CR/LF); "
+        "document level: sequences of 2-3 directives of related classes (Include / admonition / image-figure / code / table "
+        "families: the docutils classes + subclasses with different option_specs registered by the harness) rendered in one "
+        "document in every order - each directive's parse inside run_directive (class spec, arguments, options, warnings, body) "
+        "must equal the parse of the same directive rendered alone and parse_directive_text on the class registered under its "
+        "name; "
         "non-trivial = content has an option block, or arguments are parsed, or a warning/MarkupError results")
 TRUSTED = ["gen/c08_dirsrc.py: statement-by-statement translation of split_lines / parse_directive_arguments / "
            "_parse_directive_options / parse_directive_text into coq/Gen/DirSrc.v, proved equal to the model (C08_src_refines_model); "
@@ -742,6 +747,324 @@ def check_styles(ctx, sc):
     return ok
 
 
+# ------------------------------------------------------------------ document level: sequences of related directives (round 4)
+#
+# "converted by the directive's own option spec" is quantified over every class in the registry.  run_directive decides
+# per call which class (and so which option_spec) parse_directive_text is given; whatever it keeps on the renderer between
+# calls only shows when ONE render runs several directives of different but related classes.  Families of related classes
+# (the docutils ones + subclasses registered by this harness the way a project / extension would) are rendered in
+# sequences, in every order; each directive's parse (class spec, arguments, options, body, warnings) must equal the parse
+# of the same directive rendered alone, and the alone parse must equal parse_directive_text called with the registered
+# class (plus, for Include-derived classes, the three Markdown-only options run_directive documents).
+
+MYST_INCLUDE_EXTRAS = ("relative-images", "relative-docs", "heading-offset")
+DOCSEQ_FILES = {"inc1.md": "one\n\ntwo\n\nthree\n\nfour\n", "inc2.md": "alpha\n\nbeta\n\ngamma\n",
+                "data.csv": "a,b\n1,2\n"}
+
+
+def _one_based(argument):
+    from docutils.parsers.rst import directives
+    return directives.positive_int(argument) - 1
+
+
+def docseq_families():
+    """family -> {directive name: (class or None if already registered, argument, body)} and the option pool."""
+    from docutils import nodes
+    from docutils.parsers.rst import directives
+    from docutils.parsers.rst.directives.admonitions import BaseAdmonition
+    from docutils.parsers.rst.directives.body import CodeBlock
+    from docutils.parsers.rst.directives.images import Figure, Image
+    from docutils.parsers.rst.directives.misc import Include
+    from docutils.parsers.rst.directives.tables import ListTable
+
+    class VIncA(Include):
+        option_spec = {**Include.option_spec, "start-line": _one_based, "label": directives.unchanged_required}
+
+    class VIncB(Include):
+        option_spec = {"start-line": directives.nonnegative_int, "end-line": directives.positive_int,
+                       "tag": directives.flag, "encoding": directives.encoding}
+
+    class VIncC(VIncA):
+        option_spec = {**VIncA.option_spec, "tag": directives.unchanged, "tab-width": directives.positive_int}
+
+    class VAdmA(BaseAdmonition):
+        node_class = nodes.note
+        option_spec = {**BaseAdmonition.option_spec, "level": directives.nonnegative_int}
+
+    class VAdmB(BaseAdmonition):
+        node_class = nodes.tip
+        option_spec = {"class": directives.unchanged, "level": directives.unchanged_required}
+
+    class VFig(Figure):
+        option_spec = {**Figure.option_spec, "credit": directives.unchanged_required, "scale": directives.positive_int}
+
+    class VImg(Image):
+        option_spec = {k: v for k, v in Image.option_spec.items() if k not in ("scale", "target")}
+
+    class VCode(CodeBlock):
+        option_spec = {**CodeBlock.option_spec, "emphasize": directives.positive_int_list,
+                       "number-lines": directives.flag}
+
+    class VList(ListTable):
+        option_spec = {**ListTable.option_spec, "header-rows": directives.positive_int, "caption": directives.unchanged}
+
+    lt = "* - a\n  - b\n* - c\n  - d"
+    fams = {
+        "include": ({"include": (None, ["inc1.md", "inc2.md"], ""), "vinc-a": (VIncA, ["inc1.md", "inc2.md"], ""),
+                     "vinc-b": (VIncB, ["inc2.md", "inc1.md"], ""), "vinc-c": (VIncC, ["inc1.md"], "")},
+                    [("start-line", ["0", "1", "2", "x", "-1"]), ("end-line", ["3", "5", "0", "x"]), ("label", ["p", ""]),
+                     ("tag", ["", "y"]), ("heading-offset", ["1", "x"]), ("relative-docs", ["a"]), ("relative-images", [""]),
+                     ("encoding", ["utf8", "no-such-codec"]), ("tab-width", ["4", "0", "x"]), ("literal", [""]),
+                     ("start-after", ["one", "alpha"]), ("bogus", ["1"])]),
+        "admonition": ({"note": (None, [""], "body"), "tip": (None, [""], "body"), "warning": (None, [""], "body"),
+                        "admonition": (None, ["Title"], "body"), "vadm-a": (VAdmA, [""], "body"),
+                        "vadm-b": (VAdmB, [""], "body")},
+                       [("class", ["a b", "", "1x"]), ("name", ["n1"]), ("level", ["1", "x", ""]), ("bogus", ["1"])]),
+        "image": ({"image": (None, ["img.png"], ""), "figure": (None, ["img.png"], "caption"),
+                   "vfig": (VFig, ["img.png"], "caption"), "vimg": (VImg, ["img.png"], "")},
+                  [("alt", ["text"]), ("width", ["10px", "x"]), ("height", ["5em"]), ("scale", ["50", "50%", "0", "x"]),
+                   ("align", ["left", "center", "top", "middle", "x"]), ("figwidth", ["image", "10px", "x"]),
+                   ("figclass", ["a"]), ("name", ["n2"]), ("credit", ["me", ""]), ("target", ["http://x.org"]),
+                   ("bogus", ["1"])]),
+        "code": ({"code": (None, ["python"], "x = 1"), "sourcecode": (None, ["python"], "x = 1"),
+                  "vcode": (VCode, ["python"], "x = 1"), "parsed-literal": (None, [""], "lit"),
+                  "math": (None, [""], "a = b")},
+                 [("number-lines", ["", "3", "x"]), ("class", ["a"]), ("name", ["n3"]), ("emphasize", ["1,2", "x"]),
+                  ("label", ["eq1"]), ("nowrap", [""]), ("bogus", ["1"])]),
+        "table": ({"list-table": (None, ["T"], lt), "vlist": (VList, ["T"], lt), "csv-table": (None, ["T"], "a,b\n1,2"),
+                   "table": (None, ["T"], "| a | b |\n|---|---|\n| 1 | 2 |")},
+                  [("widths", ["auto", "1 2", "x"]), ("header-rows", ["1", "x", "0"]), ("stub-columns", ["1", "x"]),
+                   ("align", ["left", "center", "x"]), ("width", ["50%", "x"]), ("class", ["a"]), ("name", ["n4"]),
+                   ("delim", [";", "tab", "xx"]), ("quote", ["'", "xx"]), ("header", ["h1,h2"]), ("caption", ["c"]),
+                   ("bogus", ["1"])]),
+    }
+    return fams
+
+
+class DocseqRegistry:
+    """registers the harness classes under their names for the duration of a block (and removes them again)."""
+    _fams = None
+
+    def __enter__(self):
+        from docutils.parsers.rst import directives
+        if DocseqRegistry._fams is None:
+            DocseqRegistry._fams = docseq_families()
+        self.added = []
+        for members, _pool in DocseqRegistry._fams.values():
+            for name, (cls, _a, _b) in members.items():
+                if cls is not None and name not in directives._directives:
+                    directives.register_directive(name, cls)
+                    self.added.append(name)
+        return DocseqRegistry._fams
+
+    def __exit__(self, *a):
+        from docutils.parsers.rst import directives
+        for name in self.added:
+            directives._directives.pop(name, None)
+
+
+def docseq_text(d, style=None):
+    """one directive of a sequence as a backtick fence."""
+    lines = ["```{" + d["name"] + "}" + (" " + d["arg"] if d["arg"] else "")]
+    if d.get("style") == "dash" and d["opts"]:
+        lines += ["---"] + [f"{k}: {v}".rstrip() for k, v in d["opts"]] + ["---"]
+    else:
+        lines += [f":{k}: {v}".rstrip() for k, v in d["opts"]]
+    if d["body"]:
+        lines += ([""] if d["opts"] and d.get("style") != "dash" else []) + d["body"].split("\n")
+    return "\n".join(lines + ["```"])
+
+
+def docseq_render(dirs):
+    """render the directives in one document; every call of parse_directive_text made by run_directive, in order:
+    (registered ancestors of the class, keys of its option_spec, first line, content, result)."""
+    import myst_parser.mdit_to_docutils.base as base
+    from lib.impl import parse_only, scratch_dir
+    calls = []
+    orig = base.parse_directive_text
+
+    def spy(directive_class, first_line, content, **kw):
+        rec = {"cls": [c.__module__.split(".")[-1] + "." + c.__qualname__.split(".")[-1] for c in directive_class.__mro__
+                       if c.__qualname__.split(".")[-1] != "MystInclude"][:3],
+               "spec": sorted(directive_class.option_spec or {}),
+               "conv": sorted((k, getattr(v, "__qualname__", repr(v))) for k, v in (directive_class.option_spec or {}).items()),
+               "first": first_line, "content": content, "kw": {k: v for k, v in kw.items() if k != "line"}}
+        try:
+            r = orig(directive_class, first_line, content, **kw)
+        except Exception as e:
+            rec["exc"] = type(e).__name__ + ": " + str(e)
+            calls.append(rec)
+            raise
+        line = kw.get("line") or 0
+        rec.update(args=list(r.arguments), opts=sorted((str(k), repr(v)) for k, v in r.options.items()), body=list(r.body),
+                   offset=r.body_offset,
+                   warns=[(wkind(w), w.msg, (w.lineno - line) if w.lineno is not None else None) for w in r.warnings])
+        calls.append(rec)
+        return r
+    base.parse_directive_text = spy
+    try:
+        with scratch_dir() as d:
+            for f, t in DOCSEQ_FILES.items():
+                with open(os.path.join(d, f), "w", encoding="utf8") as fh:
+                    fh.write(t)
+            text = "\n\n".join(docseq_text(x) for x in dirs) + "\n"
+            try:
+                parse_only(text, {}, source_path=os.path.join(d, "main.md"))
+            except Exception as e:
+                # a directive's run() raised on the parsed options (not this property's subject): the parses made so
+                # far are still compared, the rest of the document was not rendered
+                calls.append({"render-exc": type(e).__name__})
+    finally:
+        base.parse_directive_text = orig
+    return calls
+
+
+def docseq_direct(fams, d):
+    """parse_directive_text on the class registered under the name (the property's reading of 'its own option spec')."""
+    from docutils.parsers.rst import directives
+    from docutils.parsers.rst.directives.misc import Include
+    from myst_parser.parsers.directives import parse_directive_text
+    cls, _ = directives.directive(d["name"], None, None)
+    if cls is None:
+        return None
+    own = dict(cls.option_spec or {})
+    if issubclass(cls, Include):
+        own.update({"relative-images": directives.flag, "relative-docs": directives.path,
+                    "heading-offset": directives.nonnegative_int})
+    text = docseq_text(d).split("\n")
+    first, content = text[0].split("}", 1)[1].strip(), "\n".join(text[1:-1])
+    probe = type("Probe", (cls,), {"option_spec": own})
+    try:
+        r = parse_directive_text(probe, first, content, line=0)
+    except Exception as e:
+        return {"exc": type(e).__name__ + ": " + str(e), "spec": sorted(own)}
+    return {"spec": sorted(own), "args": list(r.arguments), "opts": sorted((str(k), repr(v)) for k, v in r.options.items()),
+            "body": list(r.body), "offset": r.body_offset,
+            "warns": [(wkind(w), w.msg, w.lineno) for w in r.warnings]}
+
+
+# what the property speaks about first; the class handed to parse_directive_text last (differences there that the
+# options of this case happen not to exercise)
+DOCSEQ_FIELDS = [("exc", "arguments"), ("args", "arguments"), ("opts", "options"), ("warns", "warnings"), ("body", "body"),
+                 ("offset", "body"), ("spec", "spec"), ("conv", "spec"), ("cls", "spec")]
+
+
+def check_docseq(ctx, case):
+    """case: {"kind": "docseq", "family": f, "dirs": [{name, arg, opts, body, style}], "orders": [[i, ...], ...]}"""
+    ok = True
+    with DocseqRegistry() as fams:
+        dirs = case["dirs"]
+        alone = []
+        for i, d in enumerate(dirs):
+            calls = docseq_render([d])
+            alone.append(calls)
+            if any("render-exc" in c for c in calls):
+                return True         # this directive's run() raises by itself: nothing to compare in a sequence
+            if not calls:
+                ctx.fail("docseq:not-run:" + case["family"], case, f"directive {i} ({d['name']}) alone: run_directive made no parse",
+                         expected=">= 1 call", observed=0)
+                return False
+            direct = docseq_direct(fams, d)
+            top = calls[0]
+            for fld, sub in DOCSEQ_FIELDS:
+                if fld in ("conv", "cls"):
+                    continue
+                if direct is not None and direct.get(fld) != top.get(fld):
+                    ctx.fail(f"docseq:alone-vs-own-spec:{sub}:{case['family']}", case,
+                             f"directive {i} ({d['name']}) rendered alone: {fld} differs from parse_directive_text on the "
+                             f"class registered under its name", expected=direct.get(fld), observed=top.get(fld))
+                    ok = False
+                    break
+        for order in case["orders"]:
+            got = docseq_render([dirs[i] for i in order])
+            want = [c for i in order for c in alone[i]]
+            if len(got) != len(want):
+                ctx.fail("docseq:calls:" + case["family"], dict(case, orders=[order]),
+                         f"order {order}: {len(got)} directive parses in the sequence, {len(want)} when rendered one by one",
+                         expected=len(want), observed=len(got))
+                ok = False
+                continue
+            done = False
+            for j, (g, w) in enumerate(zip(got, want)):
+                for fld, sub in DOCSEQ_FIELDS:
+                    if g.get(fld) != w.get(fld):
+                        ctx.fail(f"docseq:{sub}:{case['family']}", dict(case, orders=[order]),
+                                 f"order {order}: parse #{j} ({w['cls'][0]}, first line {w['first']!r}) differs in {fld} from "
+                                 f"the same directive rendered alone", expected=w.get(fld), observed=g.get(fld))
+                        ok = False
+                        done = True
+                        break
+                if done:
+                    break
+    return ok
+
+
+def docseq_case(rng, fams=None):
+    fams = fams or DocseqRegistry._fams or docseq_families()
+    fam = rng.choice(sorted(fams))
+    members, pool = fams[fam]
+    n = rng.choice([2, 2, 3])
+    dirs = []
+    for _ in range(n):
+        name = rng.choice(sorted(members))
+        _cls, args, body = members[name]
+        opts = []
+        for k, vals in rng.sample(pool, rng.randint(0, 4)):
+            opts.append([k, rng.choice(vals)])
+        dirs.append({"name": name, "arg": rng.choice(args), "opts": opts, "body": body,
+                     "style": rng.choice(["colon", "colon", "dash"])})
+    orders = [list(range(n)), list(reversed(range(n)))]
+    if n == 3:
+        orders += [[1, 2, 0], [2, 0, 1]]
+    return {"kind": "docseq", "family": fam, "dirs": dirs, "orders": orders}
+
+
+def docseq_fixed():
+    """every ordered pair of distinct members of every family, each with one option that only some members declare."""
+    fams = docseq_families()
+    out = []
+    for fam, (members, pool) in sorted(fams.items()):
+        names = sorted(members)
+        for a in names:
+            for b in names:
+                if a >= b:
+                    continue
+                for (k, vals) in pool:
+                    dirs = [{"name": x, "arg": members[x][1][0], "opts": [[k, vals[0]]], "body": members[x][2],
+                             "style": "colon"} for x in (a, b)]
+                    out.append({"kind": "docseq", "family": fam, "dirs": dirs, "orders": [[0, 1], [1, 0]]})
+    return out
+
+
+def docseq_unit(unit):
+    seed, n, fixed_slice = unit
+
+    class C:
+        def __init__(self):
+            self.failures = []
+
+        def fail(self, signature, witness, what, expected=None, observed=None):
+            self.failures.append({"signature": signature, "witness": witness, "what": what,
+                                  "expected": expected, "observed": observed})
+    c = C()
+    rng = random.Random(seed)
+    per_sig, count = {}, 0
+    with DocseqRegistry() as fams:
+        fixed = docseq_fixed()
+        cases = fixed[fixed_slice[0]::fixed_slice[1]] + [docseq_case(rng, fams) for _ in range(n)]
+        for case in cases:
+            count += 1
+            before = len(c.failures)
+            check_docseq(c, case)
+            new = c.failures[before:]
+            del c.failures[before:]
+            for f in new:
+                per_sig[f["signature"]] = per_sig.get(f["signature"], 0) + 1
+                if per_sig[f["signature"]] <= 2:
+                    c.failures.append(f)
+    return count, c.failures
+
+
 def search_unit(unit):
     class C:
         def __init__(self):
@@ -768,7 +1091,7 @@ def search_unit(unit):
 def search(ctx):
     for c in ctx.suspects[:300]:
         ctx.search_cases += 1
-        (check_styles if c.get("kind") == "styles" else check_case)(ctx, c)
+        (check_styles if c.get("kind") == "styles" else check_docseq if c.get("kind") == "docseq" else check_case)(ctx, c)
     # the stored witnesses of this property's findings are always re-run
     for w in KNOWN_WITNESSES:
         ctx.search_cases += 1
@@ -781,6 +1104,17 @@ def search(ctx):
             ctx.failures.append(f)
     # order failures: shortest witness first so the replay is the simplest input
     ctx.failures.sort(key=lambda f: (len(str(f["witness"].get("content", ""))) + len(str(f["witness"].get("first", ""))), str(f["witness"])))
+    # document level: sequences of related directive classes in one render, every order
+    nproc = min(16, os.cpu_count() or 4)
+    total = ctx.budget(480, 6400, 12800)
+    dres = run_units([(ctx.rng.getrandbits(48), total // nproc, (i, nproc)) for i in range(nproc)], docseq_unit)
+    dfails = []
+    for n, fails in dres:
+        ctx.search_cases += n
+        ctx.count("search:docseq", n)
+        dfails += fails
+    dfails.sort(key=lambda f: len(str(f["witness"])))
+    ctx.failures += dfails
     rng = ctx.rng
     for i in range(ctx.budget(1500, 20000, 40000)):
         sc = styles_case(rng)
@@ -806,7 +1140,11 @@ def replay(ctx, data):
     if not w:
         print("replay file names no concrete input:", data.get("no_longer_checks"))
         return 1
-    ok = (check_styles if w.get("kind") == "styles" else check_case)(ctx, w)
+    if w.get("kind") == "docseq":
+        for i, d in enumerate(w["dirs"]):
+            print(f"--- directive {i}"); print(docseq_text(d))
+        print("--- orders:", w["orders"])
+    ok = (check_styles if w.get("kind") == "styles" else check_docseq if w.get("kind") == "docseq" else check_case)(ctx, w)
     print("replay:", "property holds on this input" if ok else ctx.failures[-1])
     return 0 if ok else 1
 
